@@ -1079,7 +1079,8 @@ func (kcp *KCP) Check() uint32 {
 
 // SetMtu changes MTU size, default is 1400
 func (kcp *KCP) SetMtu(mtu int) int {
-	if mtu <= IKCP_OVERHEAD {
+	// segment payloads live in pooled packet buffers of mtuLimit bytes
+	if mtu <= IKCP_OVERHEAD || mtu-IKCP_OVERHEAD > mtuLimit {
 		return -1
 	}
 
